@@ -78,7 +78,7 @@ def liq_items(ctx, n):
             stop_rel = 0.5
         dist = P0 * ((1 / lev_aim - 0.004) if lev_aim > 1 else 0.5)       # entry -> liquidation price
         p = dict(side=side, P0=P0, q1=r.choice([1, 2]), q2=1, d=round(min(8.0, dist * 0.3), 3), avg=avg,
-                 tf=r.choice([1, 1, 3]) if fast else r.choice([1, 1, 3]), stop_rel=stop_rel, aim_lev=lev_aim)
+                 tf=3 if (fast and pat == 'gap_inside_chunk') else r.choice([1, 1, 3]), stop_rel=stop_rel, aim_lev=lev_aim)
         items.append(dict(id=len(items) + 1, p=p, cfg=cfg, pattern=pat, fast=fast))
         i += 1
     return items
